@@ -58,6 +58,19 @@ func c20Diff(t rec.TB, r *rec.Rec, cs *c20Case, a, b dump.State, when string) (h
 			continue // import writes a zero "last pair/pool id" for apps that never had one; reading a missing key gives 0 as well
 		}
 		ctx := ch.Store + "/" + p + "/" + kind
+		if ch.Store == "lockerV1" && p == "17" && kind == "lost" {
+			// the locker id counter: with lockers in the export it must come back (fix 05e1c23); with none left
+			// the genesis format has nothing to derive it from (finding C20-F6)
+			lockers := false
+			for _, kv := range a {
+				if kv.Store == "lockerV1" && len(kv.Key) > 0 && kv.Key[0] == 0x15 {
+					lockers = true
+				}
+			}
+			if !lockers {
+				ctx += "-no-locker-left"
+			}
+		}
 		if seen[ctx] {
 			continue
 		}
@@ -81,8 +94,8 @@ func c20Diff(t rec.TB, r *rec.Rec, cs *c20Case, a, b dump.State, when string) (h
 var c20Cascade = map[string][]string{
 	"liquidity":   {},
 	"vault-plain": {"C20-F4"},
-	"vault":       {"C20-F3", "C20-F4"},
-	"vault-liq":   {"C20-F1", "C20-F2", "C20-F3", "C20-F4"},
+	"vault":       {"C20-F3", "C20-F4", "C20-F6"},
+	"vault-liq":   {"C20-F1", "C20-F2", "C20-F3", "C20-F4", "C20-F6"},
 }
 
 func c20AssertContinuation(r *rec.Rec, kind string, hit map[string]bool) bool {
